@@ -88,9 +88,12 @@ OUTER:
 		m.invalidateLatestSnapshotLOCKED()
 
 		stackCleanPrev = m.stackClean
-		if m.options.CachePersisted {
+		if m.options.CachePersisted && !m.stackDirtyBase.hasMergeOperations() {
 			m.stackClean = m.stackDirtyBase
 		} else {
+			// NOTE: A persisted stack that still holds merge operands must
+			// not be cached on top of the lower level that now contains
+			// them, or the operands would be applied a second time.
 			m.stackClean = nil
 
 			stackDirtyBasePrev = m.stackDirtyBase
